@@ -252,7 +252,7 @@ class _FakeOb:
 
 def match_known(known, prop, unit, failure):
     for k in known:
-        if k["property"] == prop and k.get("function") == unit and k.get("klass") == failure.get("klass"):
+        if k["property"] == prop and unit in (k.get("function"), k.get("also_function")) and k.get("klass") == failure.get("klass"):
             return k
     return None
 
